@@ -9,7 +9,7 @@ COQ_CASE_TYPE = "case"
 COQ_AGREE = "agree"
 COQ_PROP_OK = "prop_ok"
 RULE = ("seeded histories of up to 40 interaction steps: per step the stand-in env's (terminated, truncated) flags (episode ends with probability ~0.25) and whether the "
-        "agent's on_step / on_reset request a reset (incl. on the terminal step and inside on_reset); env given as instance or through gymnasium.make. "
+        "agent's on_step / on_reset request a reset (incl. on the terminal step and inside on_reset); env given as instance or through gymnasium.make; every callback checks that the info dictionary and the reward are the ones produced with its observation (harness-side clause). "
         "Non-trivial = at least two episode ends and one reset request honoured on a non-terminal step; distinct = canonical JSON.")
 TRUSTED = [
     "Coq 8.16.1 kernel incl. vm_compute",
@@ -43,6 +43,9 @@ def precheck(case, obs):
     if any(e[0] in ("onreset", "onstep") and e[1] < 0 for e in obs["log"]):
         return {"agree": False, "prop_ok": False}
     if any(e[0] == "gstep" and not isinstance(e[1], int) for e in obs["log"]):
+        return {"agree": False, "prop_ok": False}
+    if obs.get("mixups"):
+        # a callback got an info dictionary (or a reward) that did not come with its observation (harness-side clause)
         return {"agree": False, "prop_ok": False}
     return None
 
@@ -84,6 +87,8 @@ def nontrivial(case, obs):
 def signature(case, obs):
     if "error" in obs or "crash" in obs:
         return "raises"
+    if obs.get("mixups"):
+        return "result-delivered-with-the-wrong-info"
     return "episode-protocol"
 
 
